@@ -444,10 +444,20 @@ def r13_5(ctx):
         cc = child_calls[0]
         on_all = g.must_pass({cc})
         good_push = [p for p in pushes if "options.optimize" in {f.strip(".") for f in controlling_fields(ctx, mb, p)} and g.can_reach(p, cc) and p not in g.reach_after(cc)]
+        # ... and under nothing else: the pop in the children builder is unconditional under optimize, so a push that also depends on
+        # another test (component host only, has children, ...) leaves the stack unbalanced
+        from .influence import switch_fields
+        extra = []
+        for p_ in good_push:
+            for (a_, s_) in g.transitive_control_branches(p_):
+                fs = {f.strip(".") for f in switch_fields(ctx, mb, a_)}
+                if "options.optimize" not in fs:
+                    extra.append(a_)
         # exactly one push block and it is not in a loop
-        ok = len(pushes) == 1 and len(good_push) == 1 and on_all
+        ok = len(pushes) == 1 and len(good_push) == 1 and on_all and not extra
         r.ob(key, ok, C.mloc(mb, mb["blocks"][cc]["term"]),
              "push in bb%s under options.optimize, children builder in bb%d on every path" % (pushes, cc) if ok else
+             ("the push also depends on the test(s) in bb%s, the pop does not: for the hosts that skip the push the pop takes the enclosing element's flag" % sorted(set(extra))) if extra else
              "pushes: %s (under optimize and before the call: %s); children builder on every path: %s" % (pushes, good_push, on_all))
     # the pop in the children builder
     mb = C.mir_of(ctx, ch)
